@@ -454,6 +454,33 @@ def split_spare (X : Ctx) : VM (Nat × Nat) := do
   | .ret _ => pure (0, 0)
   | .cont env => pure (env.v_len, env.v_capacity - env.v_len)
 
+/-- `[T]::eq`: lengths first, then element-wise until the first mismatch (one `eq` callback each) -/
+def eqSlices (X : Ctx) : List Elem → List Elem → VM Bool
+  | [], [] => pure true
+  | a :: as, b :: bs => do
+    let r ← eqElem X a b
+    if r then eqSlices X as bs else pure false
+  | _, _ => pure false
+
+/-- lexicographic comparison of two slices: element-wise `cmp` (one callback each) up to the first
+    difference, then the lengths -/
+def cmpSlices (X : Ctx) : List Elem → List Elem → VM Ordering
+  | [], [] => pure .eq
+  | [], _ :: _ => pure .lt
+  | _ :: _, [] => pure .gt
+  | a :: as, b :: bs => do
+    callback X
+    if a.val < b.val then pure .lt else if a.val > b.val then pure .gt else cmpSlices X as bs
+
+/-- `==`, `partial_cmp`, `cmp` and the two hashes of `compare`, in that order -/
+def compareSlices (X : Ctx) (a b : List Elem) : VM (Bool × Ordering × Ordering × Bool) := do
+  let eq ← if a.length = b.length then eqSlices X a b else pure false
+  let pc ← cmpSlices X a b
+  let c ← cmpSlices X a b
+  forN a.length (fun _ => callback X)
+  forN b.length (fun _ => callback X)
+  pure (eq, pc, c, a.map (·.val) == b.map (·.val))
+
 /-- the elements the vector exposes (through `Deref`) -/
 def contents (X : Ctx) : VM (List Elem) := do
   let d ← lift X GM.isDefault
